@@ -109,18 +109,36 @@ func (r *NetconfResponse) Record(b []byte) {
 
 	r.RawResult = b
 
-	if util.ByteContainsAny(r.RawResult, r.FailedWhenContains) {
+	r.checkFailed(r.RawResult)
+
+	switch r.NetconfVersion {
+	case v1Dot0:
+		r.record1dot0()
+	case v1Dot1:
+		r.record1dot1()
+
+		if r.Failed == nil {
+			// with 1.1 framing a chunk boundary may fall inside the "<rpc-error>" marker itself,
+			// hiding it in the raw bytes -- look at the de-chunked payload as well
+			r.checkFailed([]byte(r.Result))
+		}
+	}
+}
+
+// checkFailed marks the response failed (and collects the error/warning messages) if b contains
+// any of the FailedWhenContains markers.
+func (r *NetconfResponse) checkFailed(b []byte) {
+	if util.ByteContainsAny(b, r.FailedWhenContains) {
 		patterns := getNetconfPatterns()
 
 		r.Failed = &OperationError{
 			Input:       string(r.Input),
 			Output:      r.Result,
-			ErrorString: string(patterns.rpcErrors.Find(r.RawResult)),
+			ErrorString: string(patterns.rpcErrors.Find(b)),
 		}
 
-		for _, rpcerr := range patterns.rpcSingleErrors.FindAll(r.RawResult, -1) {
+		for _, rpcerr := range patterns.rpcSingleErrors.FindAll(b, -1) {
 			errStr := string(rpcerr)
-
 			switch {
 			case strings.Contains(errStr, "<error-severity>error</error-severity>"):
 				r.ErrorMessages = append(r.ErrorMessages, errStr)
@@ -128,13 +146,6 @@ func (r *NetconfResponse) Record(b []byte) {
 				r.WarningErrorMessages = append(r.WarningErrorMessages, errStr)
 			}
 		}
-	}
-
-	switch r.NetconfVersion {
-	case v1Dot0:
-		r.record1dot0()
-	case v1Dot1:
-		r.record1dot1()
 	}
 }
 
